@@ -28,7 +28,7 @@ CHECKS = {
    text="Run A executes prefix, an aborted transaction (rollback/close/commit failing from out of space or from a write error/short write injected right before that commit) and a continuation; run B omits the aborted transaction. Readable state, free-page sets, end markers, meta totals, continuation outcomes and post-reopen state must be identical.",
    note="Free space compared as page sets. Seeded sampling."),
  "C08": dict(level="fault_enumeration", ref="6/C08", technique="deterministic simulation: I/O fault plans (kind x call index x burst) aimed at calls of a dry run; model oracle, durable-image oracle, deadlock detection, bounded liveness",
-   text="Write/short-write/sync/truncate/size/mmap/munmap/unlock failures are injected at chosen call indices with bursts, incl. two scenarios aimed at the open-time steps of size-changing opens, SyncNone configurations and reopen right after failed commits; operations must fail cleanly, transactions keep seeing the last committed state, successful commits are durable, a commit whose failure is not its final sync writes no complete header, and after faults stop a commit succeeds within two attempts; reopen shows the committed state or a complete later attempt whose only failure was the final sync.",
+   text="Write/short-write/sync/truncate/size/mmap/munmap/unlock failures are injected at chosen call indices with bursts, incl. two scenarios aimed at the open-time steps of size-changing opens, SyncNone configurations and reopen right after failed commits; operations must fail cleanly, transactions keep seeing the last committed state, successful commits are durable, a commit whose failure is not its final sync writes no complete header, aborted transactions leave the allocator unchanged, the allocator state on disk after a clean close equals the one in memory, and after faults stop a commit succeeds within two attempts; reopen shows the committed state or a complete later attempt whose only failure was the final sync.",
    note="Fault kinds limited to the vfs.File surface; no crash+error combination."),
  "C09": dict(level="exploration", ref="6/C09", technique="deterministic simulation: seeded schedule exploration of readers/writers/closer with deadlock detection, writer mutual exclusion monitor and idle-lock invariant; race clause by labelled -race side mode",
    text="N readers, M writers and an optional closer run under the seeded scheduler; at most one write transaction may be active, the scheduler must never find unfinished tasks with nothing runnable, and whenever no transaction is open the lock state must be idle; open-time maintenance transactions are included.",
